@@ -166,7 +166,9 @@ func (h *Session) deleteHost(ip netip.Addr) {
 		if Logger.IsDebug() {
 			Logger.Msg("delete host").IP("ip", ip).Struct(host).Write()
 		}
+		host.MACEntry.Row.Lock() // HostList is read under the row lock (notify, makeOffline)
 		host.MACEntry.unlink(host)
+		host.MACEntry.Row.Unlock()
 		delete(h.HostTable.Table, ip)
 		if len(host.MACEntry.HostList) == 0 { // delete if last host
 			h.MACTable.delete(host.MACEntry.MAC)
